@@ -103,6 +103,7 @@ def cmd_confirm(sid):
     finally:
         drop(d)
     res["ok"] = res["demo_on_clean_tree"] == "pass" and res["builds"] and res["demo_on_changed_tree"] == "fail" and res["pinned_suite_on_changed_tree"] == "pass"
+    m = load(sid)  # re-read: other tools may have edited the file meanwhile
     m["confirmed"] = res
     save(sid, m)
     print(sid, "confirm:", "OK" if res["ok"] else "NOT-OK", {k: v for k, v in res.items() if k not in ("demo_changed_output_tail", "suite_summary", "demo_clean_output")})
@@ -132,7 +133,9 @@ def cmd_check(sid, props, tier="quick", seed="1"):
     finally:
         drop(d); shutil.rmtree(out_dir, ignore_errors=True)
         shutil.rmtree(f"/verif/bin/alt-" + subprocess.run(f"echo {d} | md5sum | cut -c1-8", shell=True, capture_output=True, text=True).stdout.strip(), ignore_errors=True)
-    save(sid, m)
+    cur = load(sid)  # re-read: other tools may have edited the file meanwhile
+    cur.setdefault("checks", {}).update(m["checks"])
+    save(sid, cur)
 
 
 def cmd_table():
